@@ -37,6 +37,13 @@ func TestReplay(t *testing.T) {
 			if replayEnv == nil {
 				replayEnv = newEnv(5)
 			}
+			// replays share one server: what earlier replays left behind (a failing replay returns before its
+			// measurements are recorded) is not this case's business
+			if have, merr := replayEnv.srv.ShowMeasurements(dbName); merr == nil {
+				for _, m := range have {
+					replayEnv.known[m] = true
+				}
+			}
 			_, err := replayEnv.check(&cs)
 			return err
 		}
